@@ -55,6 +55,7 @@ type Obs struct {
 	FeeDelta    int64  `json:"feeDelta"`
 	OtherDelta  int64  `json:"otherDelta"` // sum of |balance change| of every other account
 	Log         string `json:"log"`
+	CheckOK     bool   `json:"checkOk"` // CheckTx of the same bytes (asked first) answered code 0
 }
 
 const baseFee = 3
@@ -356,6 +357,8 @@ func main() {
 		payer := tx.Msg.GetSigner()
 		before := a.Project()
 		pb := a.AK.GetCoins(a.Ctx(), payer).AmountOf(sdk.DefaultStakeDenom).Int64()
+		// the mempool's question first: CheckTx runs the same ante handler (on the check state)
+		chk := a.B.CheckTx(abci.RequestCheckTx{Tx: bz})
 		out := a.B.DeliverTx(abci.RequestDeliverTx{Tx: bz})
 		after := a.Project()
 		pa := a.AK.GetCoins(a.Ctx(), payer).AmountOf(sdk.DefaultStakeDenom).Int64()
@@ -391,6 +394,7 @@ func main() {
 			o.Class = "rej_pre"
 		}
 		o.Accepted = o.Class != "rej_pre"
+		o.CheckOK = chk.Code == 0
 		if c.Rp != "no" && o.Accepted && !a.RPC.WasAsked(tmtypes.Tx(bz).Hash()) {
 			fmt.Fprintln(os.Stderr, "harness failure: the tx-index lookup never reached the fake RPC server")
 			os.Exit(3)
